@@ -97,7 +97,8 @@ def check(prog: Program, tier: str) -> Result:
     _r12_11(prog, res)
     _r12_12(prog, res)
     _r12_13(prog, res)
-    res.floors.update({"R12.13": 1, "R12.1": 18, "R12.2": 11, "R12.3": 3, "R12.4": 8, "R12.5": 1, "R12.6": 4, "R12.7": 4, "R12.8": 1, "R12.9": 1, "R12.10": 4, "R12.11": 4, "R12.12": 1})
+    _r12_14(prog, res)
+    res.floors.update({"R12.14": 1, "R12.13": 1, "R12.1": 18, "R12.2": 11, "R12.3": 3, "R12.4": 8, "R12.5": 1, "R12.6": 4, "R12.7": 4, "R12.8": 1, "R12.9": 1, "R12.10": 4, "R12.11": 4, "R12.12": 1})
     return res
 
 
@@ -626,6 +627,33 @@ def _r12_6(prog: Program, res: Result) -> None:
 
 
 # ------------------------------------------------------------------------------------------------ R12.13
+def _r12_14(prog: Program, res: Result) -> None:
+    """A named wildcard stands for the same tree at every occurrence: `_all_fields_consistent` compares the bindings of every field of the
+    partial matches - except the fields it skips by name (`key != "root"`: the field in which merge_matches keeps the matched node).
+    A wildcard the USER calls by a skipped name is therefore never compared (`{{root}} = {{root}}` matches `a = b`), and its binding is
+    overwritten.  Obligation: every name the consistency test skips is a name compile_template does not hand out to a user wildcard -
+    the function that builds `Wildcard(name, ..)` from the user's names compares the name with that constant (refusal or renaming)."""
+    chk = prog.funcs.get(("core", "_all_fields_consistent"))
+    comp = prog.funcs.get(("core", "compile_template"))
+    if chk is None or comp is None:
+        raise AnalysisError("anchor core._all_fields_consistent / core.compile_template not found")
+    skipped = []
+    for c in walk_own(chk.node):
+        if isinstance(c, ast.Compare) and len(c.ops) == 1 and isinstance(c.ops[0], (ast.NotEq, ast.Eq)) and isinstance(c.left, ast.Name) \
+                and isinstance(c.comparators[0], ast.Constant) and isinstance(c.comparators[0].value, str):
+            skipped.append((c, c.comparators[0].value))
+    if not skipped:
+        res.ok("R12.14", chk.loc(), chk.fq, "field names exempt from the consistency test", "none: every field is compared", trivial=True)
+        return
+    known_to_compiler = {x.value for c in walk_own(comp.node) if isinstance(c, ast.Compare) for x in ast.walk(c) if isinstance(x, ast.Constant) and isinstance(x.value, str)}
+    for c, name in skipped:
+        ok = name in known_to_compiler
+        res.decide(ok, "R12.14", chk.loc(c), chk.fq, f"{short(c, 40)} # a field name exempt from the consistency test",
+                   f"compile_template treats a user wildcard named `{name}` separately" if ok else
+                   f"the field `{name}` is never compared and compile_template hands the name out like any other: a wildcard the user calls `{{{{{name}}}}}` is not checked "
+                   f"for consistency between its occurrences (`{{{{{name}}}}} = {{{{{name}}}}}` matches `a = b`) and its binding is replaced by the matched node")
+
+
 def _r12_13(prog: Program, res: Result) -> None:
     """The expansion generator yields `[template] * count` per element.  R12.1 decides the (min, max) table; this rule decides
     that the counts which reach the yield are taken FROM that table: each count is a component of an element of
@@ -1182,6 +1210,10 @@ def _r12_7(prog: Program, res: Result) -> None:
 from ..selftest import Variant  # noqa: E402
 
 VARIANTS = [
+    Variant("reserved-field-name-refused-by-the-compiler", "REPAIRED", "core",
+            "        wildcard_placeholder_name = f\"____wildcard__{name}____\"\n", "        if name == \"root\":\n            raise ValueError(\"The name root is that of the field with the matched node\")\n        wildcard_placeholder_name = f\"____wildcard__{name}____\"\n", "R12.14"),
+    Variant("second-field-exempt-from-the-consistency-test", "FIRE", "core",
+            "            if key != \"root\" and key not in ignore:", "            if key != \"root\" and key != \"name\" and key not in ignore:", "R12.14"),
     Variant("last-count-is-what-the-others-leave-lower-end-only", "FIRE", "core", '    keys = node_counts.keys()\n    permutations = itertools.product(*(node_counts[key] for key in keys))\n    permutations = (p for p in permutations if sum(p) == length)\n\n    for permutation in permutations:\n        yield sum(([key[1]] * count for key, count in zip(keys, permutation)), [])\n', '    keys = list(node_counts)\n    if not keys:\n        if length == 0:\n            yield []\n        return\n\n    ranges = [node_counts[key] for key in keys]\n    last = max((i for i, counts in enumerate(ranges) if len(counts) > 1), default=0)\n    for counts in itertools.product(*ranges[:last], *ranges[last + 1 :]):\n        remainder = length - sum(counts)\n        if remainder < ranges[last].start:\n            continue\n\n        permutation = (*counts[:last], remainder, *counts[last:])\n        yield sum(([key[1]] * count for key, count in zip(keys, permutation)), [])\n', "R12.13"),
     Variant("last-count-is-what-the-others-leave-tested-for-membership", "SILENT", "core", '    keys = node_counts.keys()\n    permutations = itertools.product(*(node_counts[key] for key in keys))\n    permutations = (p for p in permutations if sum(p) == length)\n\n    for permutation in permutations:\n        yield sum(([key[1]] * count for key, count in zip(keys, permutation)), [])\n', '    keys = list(node_counts)\n    if not keys:\n        if length == 0:\n            yield []\n        return\n\n    ranges = [node_counts[key] for key in keys]\n    last = max((i for i, counts in enumerate(ranges) if len(counts) > 1), default=0)\n    for counts in itertools.product(*ranges[:last], *ranges[last + 1 :]):\n        remainder = length - sum(counts)\n        if remainder not in ranges[last]:\n            continue\n\n        permutation = (*counts[:last], remainder, *counts[last:])\n        yield sum(([key[1]] * count for key, count in zip(keys, permutation)), [])\n'),
     Variant("leaf-values-compared-by-equality-only", "FIRE", "core", "    if type(node) is type(template) and node == template:\n        return (node,)", "    if node == template:\n        return (node,)", "R12.9"),
@@ -1253,7 +1285,7 @@ VARIANTS = [
 
 META = {
     "design_ref": "DESIGN.md section 3, C12",
-    "technique": "table extraction and sibling cross-check (compiler / permutation generator / length filter) against the declarative quantifier reading; path-condition checks that the consistency test dominates every successful merge and that the expansion loop only returns tested results; provenance of the repetition counts of yielded expansions; class built by (aliased) visitors of the template compiler",
+    "technique": "table extraction and sibling cross-check (compiler / permutation generator / length filter) against the declarative quantifier reading; path-condition checks that the consistency test dominates every successful merge and that the expansion loop only returns tested results; provenance of the repetition counts of yielded expansions; class built by (aliased) visitors of the template compiler; sibling agreement between the field names the consistency test skips and the names the compiler reserves",
     "level_text": ("Decides on the current source that the three quantifier tables agree with ?=(0,1) *=(0,inf) "
                    "+=(1,inf), that sequence patterns are searched in all block kinds the property names, that only "
                    "non-semantic fields are ignored and all other template fields compared, and the combination rules of "
